@@ -327,6 +327,8 @@ impl Node {
         }
 
         let now = SystemTime::now().duration_since(UNIX_EPOCH).unwrap();
+        #[cfg(feature = "verif-hooks")]
+        let now = srad_types::utils::verif_hooks::mock_wall().unwrap_or(now);
         if (now - self.last_rebirth) < self.config.rebirth_config.rebirth_cooldown {
             trace!("Skipping rebirth for Node = ({:?}), reason = ({:?}) as rebirth cooldown not expired", self.id, reason);
             return false;
